@@ -190,6 +190,17 @@ def job_bodies(job):
     n = nt = 0
     samples = []
     for body in bodies:
+        if N > 1000:
+            # long pumps only for bodies that a 600-iteration pump finds alive, with a constant number of live streams and
+            # on a plateau: a table that grows (the known reserved-stream finding, bodies that open without closing)
+            # makes every step linear in its size, 200,000 iterations quadratic, and is reported by the short pump already
+            pre = job_bodies({"client": client, "bodies": [body], "N": 600, "small": small})
+            n += pre["evaluations"]
+            if pre["violations"] or "pump:survived-plateau-judged" not in pre["outcomes"]:
+                for v in pre["violations"]:
+                    viols.setdefault(repr(v["sig"]), v)
+                outcomes["long-pump-skipped"] = outcomes.get("long-pump-skipped", 0) + 1
+                continue
         p = Pump(client, small)
         # prelude: one long-lived stream, so that bodies without an opening template have something to act on
         p.step("req" if client else "open")
